@@ -17,15 +17,21 @@ RULE = ("(a) widths: every (global bitlength b in 2..4[5], requested width n in 
 def widths_shard(bs, p):
     stats = core.Stats()
     found = {}
+    from harness.intlike import IntLike
     for b in bs:
+      for wrap in (False, True):
         for n in range(0, b + 4):
             for v in range(-3, (1 << n) + 4):
+                if wrap and v not in (-1, 0, 1, (1 << n) - 1, 1 << n):
+                    continue
                 ns = env.reset(p, b, 0)
                 x = ns.rt.PrivVal(v)
                 case = {"part": "width", "p": p, "b": b, "n": n, "v": v}
+                if wrap:
+                    case["intlike"] = True      # the width as an integer-like object (numpy.int64 style), not an int
                 inside = 0 <= v < (1 << n)
                 try:
-                    bits = x.to_bits(n)
+                    bits = x.to_bits(IntLike(n) if wrap else n)
                     y = ns.rt.LinComb.from_bits(bits) if n else 0
                     yv = y.value if hasattr(y, "value") else y
                     if not inside:
@@ -41,7 +47,7 @@ def widths_shard(bs, p):
                     if inside:
                         found.setdefault("to_bits.rejects-in-range", {"case": case, "key": "to_bits.rejects-in-range",
                             "msg": "to_bits(%d) rejected %d at bitlength %d" % (n, v, b)})
-                stats.case(case, n != b, ("width:n%sb" % ("=" if n == b else "<" if n < b else ">"),), sample_cap=3)
+                stats.case(case, n != b, ("width:n%sb" % ("=" if n == b else "<" if n < b else ">"),) + (("width-as-intlike",) if wrap else ()), sample_cap=3)
     stats.violations = list(found.values())
     return stats
 
